@@ -818,8 +818,12 @@ func (c *Canary) send(state *State, payload []byte, flags tcp.Flag) error {
 
 	data = append(data2, data...)
 
+	// the transmit buffer is shared by the receive loop and all connection
+	// handlers
+	c.m.Lock()
 	c.buffer.Write([]byte{byte((len(data) & 0xFF00) >> 8), byte(len(data) & 0xFF)})
 	c.buffer.Write(data)
+	c.m.Unlock()
 
 	fd := c.descriptors[ae.Interface]
 
@@ -1002,10 +1006,14 @@ func (c *Canary) transmit(fd int32) error {
 	for {
 		buff := [2]byte{}
 
+		c.m.Lock()
+
 		_, err := c.buffer.ReadAndMaybeAdvance(buff[:], true)
 		if err == io.EOF {
+			c.m.Unlock()
 			break
 		} else if err != nil {
+			c.m.Unlock()
 			log.Errorf("Error reading buffer 1: %s", err)
 			return err
 		}
@@ -1014,6 +1022,9 @@ func (c *Canary) transmit(fd int32) error {
 
 		buffer := make([]byte, len)
 		n, err := c.buffer.Read(buffer)
+
+		c.m.Unlock()
+
 		if err != nil {
 			log.Errorf("Error reading buffer 2: %s", err)
 			return err
